@@ -128,5 +128,26 @@ def run(P, C, tier):
                                 oks[last[1:]] = True
         for k, v in oks.items():
             C.ob("R4", k + "-from-extract_json", v, gm.loc(), "%s is the text extracted by extract_json" % k)
+        # whenever the row's json is rewritten the current text is recomputed, and the previous text is never discarded
+        json_stores = []
+        fts_stores = []
+        none_stores = []
+        for bi in sorted(gm.live_blocks()):
+            for si, st in enumerate(gm.blocks[bi]["s"]):
+                last = st["lhs"][-1] if len(st["lhs"]) > 1 else ""
+                if last == "._json":
+                    json_stores.append(bi)
+                if last == ".node_fts_str":
+                    fts_stores.append(bi)
+                if last in (".old_fts_str", ".node_fts_str"):
+                    t = strip_refs(gm.def_term(bi, si, st["rv"], 0))
+                    if t[0] == "aggr" and t[3] == "None":
+                        none_stores.append("%s:%d" % (gm.file, st["at"][0]))
+        okret = mir.return_assignments(gm)["Ok"]
+        ok = bool(json_stores) and bool(fts_stores) and bool(okret) and all(gm.must_pass(js, fts_stores, okret) or js in fts_stores for js in json_stores)
+        C.ob("R4", "current-text-follows-every-json-rewrite", ok, gm.loc(json_stores[0]) if json_stores else gm.loc(),
+             "every path that stores a new node._json also stores node_fts_str (the text of that json): %s" % ok)
+        C.ob("R4", "texts-never-discarded", not none_stores, none_stores[0] if none_stores else gm.loc(),
+             "old_fts_str / node_fts_str are never reset to None once extracted (sites: %s): without the previous text the 'delete' command of the content-less index cannot remove it" % (none_stores or "none"))
     except mir.MissingAnchor as e:
         C.anchor_missing("R4", "get_mutate_query", e)
